@@ -217,6 +217,8 @@ def c10(res):
                         have = [P["name"] for P in G[0]["params"]]
                         lacks += [(gname + b":" + n).decode() for n in names if "x" + n.hex() not in have]
                 where["lacks"] = ",".join(x.split(":")[0] for x in lacks[:1]) if lacks else "-"
+                GA = [x for x in prev["groups"] if x["name"] == "x" + b"ANALOG".hex()]
+                if GA and not GA[0]["params"]: where["lacks"] = "ANALOG-group-empty"       # an ANALOG group without any parameter (Optotrak style)
             out.append(("unchanged_after_throw", where, "a refused %s call changed the object's %s" % (rec["op"], what)))
     return out
 
@@ -275,6 +277,13 @@ def c05_agree(d, gaps=()):
                     bad.append(("labellike_count", "%s:%s has %d entries for %d declared" % (g.decode(), pn.decode(), len(q["vals"]), n)))
     return bad
 
+def subframes_from_rates(a_, p_):
+    """what c3d::updateHeader derives: static_cast<size_t>(std::round(ANALOG:RATE / POINT:RATE)) on the two 32-bit values
+    (fix fd58235: rounded, no longer truncated); the double quotient rounded to 32 bits IS the 32-bit quotient"""
+    import struct, math
+    q = struct.unpack("<f", struct.pack("<f", a_ / p_))[0]
+    return int(math.floor(abs(q) + 0.5)) if q >= 0 else -int(math.floor(abs(q) + 0.5))
+
 def ratio_matches_data(d):
     """the stored sub-frame count is what the reader will derive from ANALOG:RATE / POINT:RATE"""
     h = run.hdr(d)
@@ -283,7 +292,7 @@ def ratio_matches_data(d):
     pr = getp(d, b"POINT", b"RATE"); ar = getp(d, b"ANALOG", b"RATE")
     try:
         p_, a_ = fval(pr["vals"][0]), fval(ar["vals"][0])
-        return p_ > 0 and int(a_ / p_) == nabf
+        return p_ > 0 and subframes_from_rates(a_, p_) == nabf
     except Exception: return False
 
 def c05(res):
@@ -685,7 +694,7 @@ def complete_frames(d):
         # the sub-frame count must be the declared rate ratio (the reader derives it from the rates)
         try:
             p_, a_ = fval(pr["vals"][0]), fval(ar["vals"][0])
-            if p_ < 1 or int(a_ / p_) != nabf: return False
+            if p_ < 1 or subframes_from_rates(a_, p_) != nabf: return False
         except Exception: return False
     for f in d["frames"]:
         if lab and lab["type"] == "C" and [p[0] for p in f["pts"]] != lab["vals"][:len(f["pts"])] : return False
